@@ -38,7 +38,7 @@ func SentinelMiddleware(opts ...Option) iris.Handler {
 		// one slot for it. An earlier handler may have left an error there and gone on: it is taken out
 		// while the chain behind the adapter runs, so that whatever is in the slot afterwards was set
 		// for this entry (also when it is the very same error value), and put back if nothing was.
-		earlier := c.GetErr()
+		public, earlier := c.GetErrPublic()
 		if earlier != nil {
 			c.SetErr(nil)
 		}
@@ -46,7 +46,13 @@ func SentinelMiddleware(opts ...Option) iris.Handler {
 		if err := c.GetErr(); err != nil {
 			sentinel.TraceError(entry, err)
 		} else if earlier != nil {
-			c.SetErr(earlier)
+			// (as it was: an error stored with SetErrPrivate must not come back as one that iris shows to
+			// the client)
+			if public {
+				c.SetErr(earlier)
+			} else {
+				c.SetErrPrivate(earlier)
+			}
 		}
 	}
 }
